@@ -40,7 +40,7 @@ ORACLE_OWNER = {
     "conc-ledger": ["C01"], "conc-dup": ["C02"], "conc-attempts": ["C02"], "conc-rdy": ["C03"],
     "conc-conservation": ["C13"], "conc-negative": ["C13", "C03"], "conc-inv": PROPS_ALL, "race": PROPS_ALL,
     "f8": ["C13", "C03"], "bad-frame": ["C01"], "attempts-wrap-65536": ["C02"],
-    "pump-late-flush": ["C03"], "pump-newer": ["C03"], "pump-order": ["C03", "C02"], "pump-lost-frame": ["C03", "C01"],
+    "sample-drop": ["C13", "C01"], "pump-late-flush": ["C03"], "pump-newer": ["C03"], "pump-order": ["C03", "C02"], "pump-lost-frame": ["C03", "C01"],
 }
 
 
